@@ -377,7 +377,7 @@ func (cs *clientStream) RecvMsg(m interface{}) error {
 
 	select {
 	case <-cs.ctx.Done():
-		return statusFromContextError(cs.ctx.Err())
+		return cs.failWithContextError()
 	case msg, ok := <-cs.rCh:
 		if !ok {
 			done, err := cs.readErrorIfDone()
@@ -399,7 +399,7 @@ func (cs *clientStream) RecvMsg(m interface{}) error {
 			// it's available for a subsequent call to Trailer)
 			select {
 			case <-cs.ctx.Done():
-				return statusFromContextError(cs.ctx.Err())
+				return cs.failWithContextError()
 			case _, ok := <-cs.rCh:
 				if ok {
 					// server tried to send >1 message!
@@ -428,6 +428,22 @@ func (cs *clientStream) RecvMsg(m interface{}) error {
 		}
 		return nil
 	}
+}
+
+// failWithContextError is used when a receive is abandoned because the context
+// ended. It makes that outcome final, so that later receives report it too: a
+// message may just have been discarded, and if the reply then still completes
+// with an OK trailer a later RecvMsg would otherwise return io.EOF, claiming a
+// complete stream.
+func (cs *clientStream) failWithContextError() error {
+	err := statusFromContextError(cs.ctx.Err())
+	cs.rMu.Lock()
+	defer cs.rMu.Unlock()
+	if cs.rErr == nil {
+		cs.rErr = err
+		cs.done = true
+	}
+	return err
 }
 
 // doHttpCall performs the HTTP round trip and then reads the reply body,
@@ -544,11 +560,13 @@ func (cs *clientStream) doHttpCall(transport http.RoundTripper, req *http.Reques
 			// final message is a trailer (need lock to write to cs.tr)
 			cs.rMu.Lock()
 			rMuHeld = true // defer above will unlock for us
-			cs.rErr = readProtoMessage(reply.Body, cs.codec, int32(-sz), &cs.tr)
-			if cs.rErr != nil {
-				if cs.rErr == io.EOF {
-					cs.rErr = io.ErrUnexpectedEOF
-				}
+			trErr := readProtoMessage(reply.Body, cs.codec, int32(-sz), &cs.tr)
+			if trErr == io.EOF {
+				trErr = io.ErrUnexpectedEOF
+			}
+			if cs.rErr == nil {
+				// (an error already recorded by the receiving side stays)
+				cs.rErr = trErr
 			}
 			if len(cs.tr.Metadata) > 0 && len(cs.copts.Trailers) > 0 {
 				cs.copts.SetTrailers(metadataFromProto(cs.tr.Metadata))
